@@ -111,6 +111,21 @@ func oddProfile(class string) *profile.Profile {
 		p.Sample[1].NumUnit = map[string][]string{"bytes": {"kilobytes", "", ""}}
 		p.Sample[0].NumLabel = map[string][]int64{"latency": {5, 7}}
 		p.Sample[0].NumUnit = map[string][]string{"latency": {"", "ms"}}
+	case "zerocount":
+		// nothing in the first column (the divisor of -mean), something in the second
+		p.Sample[0].Value = []int64{0, 70}
+		p.Sample[1].Value = []int64{0, 5}
+	case "oddlines":
+		// line numbers no source file has, on locations without an address (listings are then built from the lines)
+		odd := []int64{-5, math.MaxInt64, math.MinInt64, 0}
+		k := 0
+		for _, l := range p.Location {
+			l.Address = 0
+			for i := range l.Line {
+				l.Line[i].Line = odd[k%len(odd)]
+				k++
+			}
+		}
 	case "zerovalues":
 		for _, s := range p.Sample {
 			for i := range s.Value {
